@@ -37,8 +37,28 @@ def build_corpus(chk, tier, corpus_file, exhaustive_len=None, sizes=None):
 
 
 # ---------------------------------------------------------------- classifiers of known-finding preconditions
+def _same_name_resolves(data):
+    """D14 precondition read off the reference VM's own resolves (exact also when STACK_GLOBAL takes its
+    strings from the memo)"""
+    try:
+        _, _, w, _ = vmlib.vm_trace(data)
+    except Exception:
+        return False
+    seen = {}
+    for ev in w.events:
+        if ev[0] != "resolve" or not isinstance(ev[1], str) or not isinstance(ev[2], str):
+            continue
+        m = "builtins" if ev[1] in vmlib.BUILTINS_MODULES else ev[1]
+        if ev[2] in seen and seen[ev[2]] != m:
+            return True
+        seen[ev[2]] = m
+    return False
+
+
 def same_name_globals(data):
     """D14: two globals with the same attribute name from different modules"""
+    if _same_name_resolves(data):
+        return True
     try:
         ops = vmlib.abstract_ops(data)
     except Exception:
